@@ -17,6 +17,7 @@ GNext ==
      /\ IF cfg.skip /\ wk[0].d = 0 THEN UNCHANGED hist
         ELSE Log([ev |-> "Visit", c |-> wk[0].c, d |-> wk[0].d, ret |-> (wk'[0].pc = "fetch")])
   \/ WFetch(0) /\ Log([ev |-> "Fetch", c |-> wk[0].c, st |-> cfg.status[wk[0].c]])
+  \/ WFetchRet(0) /\ UNCHANGED hist        \* sequential: nothing can happen between the call and its return
   \/ WHandle(0) /\ UNCHANGED hist
   \/ WCallback(0) /\ LET cb == Head(wk[0].cbq) IN Log([ev |-> cb.cb, c |-> cb.c, e |-> cb.e])
   \/ WProvide(0) /\ Log([ev |-> "Provide", c |-> wk[0].c])
